@@ -3,6 +3,10 @@ extern crate std;
 #[allow(unused_imports)]
 use std::{vec, vec::Vec};
 use super::*;
+#[allow(unused_imports)]
+use crate::options::{ColorOrder, MemoryMapping, ModelOptions, Orientation, RefreshOrder};
+#[allow(unused_imports)]
+use crate::dcs::DcsCommand;
 use crate::vk_support::*;
 
 /// all 2 x 8 x 4 inputs through `new`, `From<&ModelOptions>` and the setter chain: exact MIPI byte
